@@ -1477,6 +1477,42 @@ func nameSQL(name string) string {
 	return strings.Join(parts, ".")
 }
 
+// tableNameWords are keyword tokens the parser also accepts as unquoted table names in FROM, JOIN and
+// MERGE; they are left as written there.
+var tableNameWords = map[string]bool{"TARGET": true, "SOURCE": true, "MATCHED": true}
+
+// tableNameSQL is nameSQL for the name of a table reference.
+func tableNameSQL(name string) string {
+	parts := strings.Split(name, ".")
+	for i := range parts {
+		if !tableNameWords[strings.ToUpper(parts[i])] {
+			parts[i] = safeIdentifier(parts[i])
+		}
+	}
+	if name == "" {
+		return ""
+	}
+	return strings.Join(parts, ".")
+}
+
+// IdentifierSQL returns a column, alias or object name as it has to be written in SQL text: unchanged
+// if the tokenizer reads it back as the same identifier, double-quoted otherwise (reserved words,
+// names with spaces or punctuation).
+func IdentifierSQL(name string) string {
+	return safeIdentifier(name)
+}
+
+// QualifiedNameSQL is IdentifierSQL for a possibly schema-qualified object name (schema.table):
+// every dot-separated part that needs it is double-quoted.
+func QualifiedNameSQL(name string) string {
+	return nameSQL(name)
+}
+
+// TableNameSQL is QualifiedNameSQL for the table of a FROM, JOIN or MERGE table reference.
+func TableNameSQL(name string) string {
+	return tableNameSQL(name)
+}
+
 // nameListSQL renders a comma-separated list of names.
 func nameListSQL(names []string) string {
 	parts := make([]string, len(names))
@@ -1524,7 +1560,7 @@ func tableRefSQL(t *TableReference) string {
 		sb.WriteString(t.Subquery.SQL())
 		sb.WriteString(")")
 	} else {
-		sb.WriteString(nameSQL(t.Name))
+		sb.WriteString(tableNameSQL(t.Name))
 	}
 	if t.Alias != "" {
 		sb.WriteString(" ")
